@@ -202,6 +202,7 @@ def run_solve_paths(mutate=None):
             monitor = False
             monitor_update_interval = 1.0
             include_screening = False
+            dt_init = 1e-3
             sparse_solver = type("E", (), {"value": "superlu"})()
 
             def validate(self_):
